@@ -210,21 +210,23 @@ def caching_1d(ex, uni, res, what):
 
 
 @harness('C14', name='caching_2d', universe=_universe, validate=lambda uni, **kw: _validate(uni, 2),
-         tiers={'quick': [{'res': 0.5, 'what': w} for w in ('history', 'nodes', 'bilinear', 'bilinear_bounds', 'outside')],
-                'thorough': [{'res': r, 'what': w} for r in (0.5, 0.34) for w in ('history', 'nodes', 'bilinear', 'bilinear_bounds', 'outside')]},
+         tiers={'quick': [{'res': 0.5, 'what': w} for w in ('history', 'nodes', 'bilinear', 'bilinear_bounds', 'quadratic', 'outside')],
+                'thorough': [{'res': r, 'what': w} for r in (0.5, 0.34) for w in ('history', 'nodes', 'bilinear', 'bilinear_bounds', 'quadratic', 'outside')]},
          functions=[(CACH % 2) + '.Caching2D'], cover=['evaluated'],
          bounds={'area': '[0,1]^2, resolution concrete per job (2-3 cells per axis); points and function values symbolic'},
-         stubs=['numpy.linalg.solve: exact rational inverse of the concrete 16x16 matrix'], outside=['curvature error bound in 2D'])
+         stubs=['numpy.linalg.solve: exact rational inverse of the concrete 16x16 matrix'],
+         outside=['error bound for general twice-differentiable functions (shown for symbolic quadratics: bilinear part + q_x x^2 + q_y y^2)'])
 def caching_2d(ex, uni, res, what):
     _nd(ex, uni, 2, res, what)
 
 
 @harness('C14', name='caching_3d', universe=_universe, validate=lambda uni, **kw: _validate(uni, 3),
-         tiers={'quick': [{'res': 0.5, 'what': w} for w in ('trilinear', 'trilinear_bounds')],
-                'thorough': [{'res': 0.5, 'what': w} for w in ('history', 'nodes', 'trilinear', 'trilinear_bounds', 'outside')]},
+         tiers={'quick': [{'res': 0.5, 'what': w} for w in ('trilinear', 'trilinear_bounds', 'outside')],
+                'thorough': [{'res': 0.5, 'what': w} for w in ('history', 'nodes', 'trilinear', 'trilinear_bounds', 'quadratic', 'outside')]},
          functions=[(CACH % 3) + '.Caching3D'], cover=['evaluated'],
          bounds={'area': '[0,1]^3, 2 cells per axis; points and function values symbolic'},
-         stubs=['numpy.linalg.solve: exact rational inverse of the concrete 64x64 matrix'], outside=['curvature error bound in 3D'])
+         stubs=['numpy.linalg.solve: exact rational inverse of the concrete 64x64 matrix'],
+         outside=['error bound for general twice-differentiable functions (thorough tier: symbolic quadratics)'])
 def caching_3d(ex, uni, res, what):
     _nd(ex, uni, 3, res, what)
 
@@ -243,6 +245,35 @@ def _nd(ex, uni, dim, res, what):
         v_fresh = c2(*p2)
         ex.cover('evaluated')
         ex.prove(ex.eq(v_hist, v_fresh), 'value-independent-of-earlier-evaluations')
+        ex.prove(ex.eq(c1(*p2), v_hist), 'repeated-evaluation-returns-the-same-value')
+    elif what == 'quadratic':
+        # curvature error bound: F = bilinear part + sum_d q_d x_d^2; the bilinear part is reproduced exactly, each pure
+        # quadratic contributes at most (1/4) h^2 max|F_dd| (the 1D bound)
+        co = [ex.real('c%d' % i) for i in range(2 ** dim)]
+        qd = [ex.real('q%d' % d) for d in range(dim)]
+
+        def f(*p):
+            tot = 0
+            for m in range(2 ** dim):
+                term = co[m]
+                for d in range(dim):
+                    if m >> d & 1:
+                        term = term * p[d]
+                tot = tot + term
+            for d in range(dim):
+                tot = tot + qd[d] * p[d] * p[d]
+            return tot
+        c1 = _mk(uni, ex, dim, PolyF(f, _base(dim)), lo, hi, res)
+        p = [ex.real('p' + n, lo=0, hi=1) for n in names]
+        v = c1(*p)
+        bound = 0
+        for d, ax in enumerate(_nodes(c1, dim)):
+            nd = [float(core._cfrac(n)) if ex.sym else float(n) for n in ax]
+            h = max(nd[i + 1] - nd[i] for i in range(len(nd) - 1))
+            bound = bound + (CR(0.25 * h * h * 2) if ex.sym else 0.25 * h * h * 2) * abs(qd[d])
+        err = v - f(*p)
+        ex.cover('evaluated')
+        ex.prove(ex.all([ex.le(err, bound), ex.le(-bound, err)]), 'quadratic:|error|<=(1/4)*sum_d(h_d^2*max|F_dd|)')
     elif what == 'nodes':
         F = RecF(ex, 'F', _base(dim))
         c1 = _mk(uni, ex, dim, F, lo, hi, res)
@@ -277,10 +308,12 @@ def _nd(ex, uni, dim, res, what):
         nbe = bool(ex.bool('no_boundary_error'))
         c1 = _mk(uni, ex, dim, F, lo, hi, res, no_boundary_error=nbe)
         p = [ex.real('p' + n) for n in names]
-        ex.assume(ex.any([p[0] < -0.001, p[0] > 1.001]))
-        for q in p[1:]:
-            ex.assume(q >= 0)
-            ex.assume(q <= 1)
+        ax = int(ex.int('axis_outside', 0, dim - 1))       # which coordinate leaves the caching area (the others stay inside)
+        ex.assume(ex.any([p[ax] < -0.001, p[ax] > 1.001]))
+        for d, q in enumerate(p):
+            if d != ax:
+                ex.assume(q >= 0)
+                ex.assume(q <= 1)
         try:
             v = c1(*p)
             err = None
